@@ -118,6 +118,8 @@ def parse_out(line):
             r["s3"] = [int(x) for x in t[3:].split(",")] if len(t) > 3 else []; i += 1
         elif t.startswith("s4="):
             r["s4"] = bytes.fromhex(t[3:]); i += 1
+        elif t.startswith("vt="):
+            r["vt"] = {} if t == "vt=-" else {int(a.split(":")[0]): int(a.split(":")[1]) for a in t[3:].split(",")}; i += 1
         elif t.startswith("inv="):
             r["inv"] = int(t[4:]); i += 1
         elif t.startswith("rc="):
@@ -639,6 +641,16 @@ def evaluate(c, cl, ml):
             corr = "the model extracted nothing: %s" % ml[:120]
         elif tables_key(m["extr"]) != tables_key(x):
             corr = "extracted tables: library %s, model %s" % (str(tables_key(x))[:300], str(tables_key(m["extr"]))[:300])
+        elif c["mode"] == "M":
+            # the model's mirror of bufr_encoding_to_valtype against the type the library holds each local element's value in
+            vt = m.get("vt") or {}
+            code = {"i": 0, "l": 1, "d": 2, "s": 3}
+            for it in o["data"].get("DO", "").split():
+                f = it.split("/")
+                if len(f) == 7 and f[0].isdigit() and int(f[0]) in vt and f[6][:1] in code and not (int(f[1], 16) & 0x4):
+                    if code[f[6][0]] != vt[int(f[0])]:
+                        corr = "value type of %s: library holds %s, model entry_valtype says %d" % (f[0], f[6][:1], vt[int(f[0])])
+                        break
     except Exception as e:
         corr = "unparsable model output (%s): %s" % (e, ml[:200])
     return None, corr, finding
